@@ -48,7 +48,7 @@ def runs(tier):
     return 96 if tier == 'quick' else 12000
 
 
-def gen_case(rng, tier):
+def gen_case(rng, tier, i=None):
     b = bm.gen_budget(rng, 'full')
     # every primary source gets at least one row now and then, and merchant names stay id-distinct
     files = bm.render_budget(b, rng)
@@ -90,7 +90,11 @@ def gen_case(rng, tier):
                     f['errno'] = rng.choice(['EIO', 'ESTALE', 'EAGAIN'])
                 faults.append(f)
     case = {'budget': b, 'faults': faults, 'cfg': b['base'] + 'config'}
-    if rng.random() < 0.2:
+    forced_link = {1: 'rules-file', 5: 'config-dir', 9: 'data-file', 11: 'views-file'}.get(i % 12) if i is not None else None
+    if forced_link:
+        # (stratified over the run index: every batch of twelve budgets has one of each kind, where the budget has such a file)
+        case['symlink'] = bm.add_symlinks(files, b, rng, kinds=(forced_link,))
+    elif rng.random() < 0.1:
         # parts of the budget are symbolic links (a synced folder, a shared rules file): a link is the file it points to
         case['symlink'] = bm.add_symlinks(files, b, rng)
     if rng.random() < 0.25:
@@ -522,7 +526,7 @@ def execute(case, scratch):
 
 def run_one(seed, i, tier, scratch):
     rng = util.rng_for(seed, ID, i)
-    case = gen_case(rng, tier)
+    case = gen_case(rng, tier, i)
     res = execute(case, scratch)
     for v in res['violations']:
         v['schedule']['seed'] = seed
